@@ -1170,7 +1170,7 @@ func (t *FnTrans) checkCallbackArgs(ct *Contract, key, short string, nth int, pn
 				}
 			}
 		}
-		if len(cb.Ensures) == 0 {
+		if len(cb.Ensures) == 0 && cb.Opts["anytime"] == "" {
 			continue
 		}
 		idx := -1
@@ -1212,6 +1212,9 @@ func (t *FnTrans) checkCallbackArgs(ct *Contract, key, short string, nth int, pn
 			fnames, rnames = fc.Params, fc.Results
 		}
 		obName := fmt.Sprintf("cbarg.%s.%d.%s", short, nth, cbName)
+		if fc == nil && len(cb.Ensures) == 0 {
+			continue // opt anytime only: nothing is known about what the function requires
+		}
 		if fc == nil {
 			t.obligeNamed(obName, "cbarg", "false", "the function passed for "+cbName+" has no contract from which the callee's assumption about it could be established")
 			continue
@@ -1252,6 +1255,22 @@ func (t *FnTrans) checkCallbackArgs(ct *Contract, key, short string, nth int, pn
 			}
 		}
 		bind(fenv, fnames, rnames)
+		if cb.Opts["anytime"] != "" {
+			// the callee keeps the function and may invoke it at any later time from a goroutine that holds none of the
+			// caller's locks - also right now: what the function requires of the lock state and of the state its
+			// bindings refer to must hold for such a goroutine in the current state
+			fenv.noLocks = true
+			for i, r := range fc.Requires {
+				if !strings.Contains(r.Text, "held(") && !strings.Contains(r.Text, "unlocked(") {
+					continue
+				}
+				t.obligeNamed(fmt.Sprintf("cbarg.anytime.%s.%d.%s.%d", short, nth, cbName, i+1), "cbarg", fenv.evalBool(r.E), "the function registered for "+cbName+" can be invoked at any time by a goroutine that holds no lock, but requires: "+r.Text)
+			}
+			fenv.noLocks = false
+		}
+		if len(cb.Ensures) == 0 {
+			continue
+		}
 		var hyp []string
 		for _, e := range fc.Ensures {
 			hyp = append(hyp, fenv.evalBool(e.E))
